@@ -708,6 +708,17 @@ func lowerBound(v ssa.Value) (int64, bool) {
 	if c, ok := constInt(v); ok {
 		return c, true
 	}
+	if bo, ok := v.(*ssa.BinOp); ok && bo.Op == token.ADD {
+		// x + k
+		if k, isK := constInt(bo.Y); isK {
+			if _, isPhi := bo.X.(*ssa.Phi); isPhi {
+				if l, ok := lowerBound(bo.X); ok {
+					return l + k, true
+				}
+			}
+		}
+		return 0, false
+	}
 	ph, ok := v.(*ssa.Phi)
 	if !ok {
 		return 0, false
@@ -732,6 +743,21 @@ func lowerBound(v ssa.Value) (int64, bool) {
 }
 
 // decideCmp evaluates `v op c` when v is a constant or has a known lower bound that decides it.
+func decideCmpConst(op token.Token, v ssa.Value, c *ssa.Const) (val, known bool) {
+	if n, ok := constInt(c); ok {
+		return decideCmp(op, v, n)
+	}
+	vc, ok := v.(*ssa.Const)
+	if !ok || vc.Value == nil || c.Value == nil || vc.Value.Kind() != c.Value.Kind() {
+		return false, false
+	}
+	switch op {
+	case token.EQL, token.NEQ, token.LSS, token.LEQ, token.GTR, token.GEQ:
+		return constant.Compare(vc.Value, op, c.Value), true
+	}
+	return false, false
+}
+
 func decideCmp(op token.Token, v ssa.Value, c int64) (val, known bool) {
 	if n, ok := constInt(v); ok {
 		switch op {
@@ -806,16 +832,16 @@ func (vb *viewBuilder) threadIntPhis() {
 				continue
 			}
 			op := cmp.Op
-			var c int64
+			var c *ssa.Const
 			if cmp.X == ssa.Value(phi) {
-				n, ok := constInt(cmp.Y)
-				if !ok {
+				n, ok := cmp.Y.(*ssa.Const)
+				if !ok || n.Value == nil {
 					continue
 				}
 				c = n
 			} else if cmp.Y == ssa.Value(phi) {
-				n, ok := constInt(cmp.X)
-				if !ok {
+				n, ok := cmp.X.(*ssa.Const)
+				if !ok || n.Value == nil {
 					continue
 				}
 				c, op = n, swapOp(op)
@@ -919,7 +945,7 @@ func (vb *viewBuilder) threadIntPhis() {
 			// at least one edge must be decided, otherwise nothing is gained
 			decided := 0
 			for _, e := range phi.Edges {
-				if _, known := decideCmp(op, e, c); known {
+				if _, known := decideCmpConst(op, e, c); known {
 					decided++
 				}
 			}
@@ -945,7 +971,7 @@ func (vb *viewBuilder) threadIntPhis() {
 			edgeVal := map[*ssa.BasicBlock]ssa.Value{}
 			for k, q := range x.Preds {
 				e := phi.Edges[k]
-				if val, known := decideCmp(op, e, c); known {
+				if val, known := decideCmpConst(op, e, c); known {
 					t := x.Succs[1]
 					if val {
 						t = x.Succs[0]
@@ -961,7 +987,7 @@ func (vb *viewBuilder) threadIntPhis() {
 				}
 				nb := &ssa.BasicBlock{Comment: "thread." + x.Comment}
 				setBlockParent(nb, f)
-				nc := &ssa.BinOp{Op: op, X: e, Y: ssa.NewConst(constant.MakeInt64(c), e.Type())}
+				nc := &ssa.BinOp{Op: op, X: e, Y: ssa.NewConst(c.Value, e.Type())}
 				setRegType(nc, cmp.Type())
 				setInstrBlock(nc, nb)
 				ni := &ssa.If{Cond: nc}
